@@ -21,7 +21,7 @@ EXPLANATION = (
     "the ABA argument for the tag width, victim selection when stealing.")
 ASSUMPTIONS = ["std::atomic<thread_state>::compare_exchange_strong is atomic", "work_items_/new_tasks_/terminated_items_ deliver each pushed element to one pop (C17)",
                "on_start_thread runs on the owning worker before the pool's start-up barrier releases any work (reserve() calls exempt from R6)"]
-THOROUGH_CONFIGS = [["-UNDEBUG", "-DPIKA_DEBUG"]]
+THOROUGH_CONFIGS = [["-UNDEBUG", "-DPIKA_DEBUG"], ["-DPIKA_HAVE_THREAD_QUEUE_WAITTIME"]]
 FLOORS = {"C01.R1": 8, "C01.R2": 6, "C01.R3": 8, "C01.R4": 24, "C01.R5": 12, "C01.R6": 10, "C01.R7": 9, "C01.R8": 2, "C01.R9": 1}
 
 TSS = "pika::threads::detail::thread_schedule_state"
